@@ -465,7 +465,7 @@ def _run_fixed(spec, idx, ctx):
     if reused:
         # the object first serves a different stack (frames with different statistics) with the same arguments, then receives the
         # identical stack through the public setters and is preprocessed again
-        dc, m = _previous_life(D, rng, shape, n, same_n=rng.random() < 0.7)
+        dc, m = _previous_life(D, rng, shape, n)  # same frame count: the public images setter re-validates the stored per-image pad values and refuses another count
         kw0 = dict(valid_kw)
         if pv_form == "list":
             kw0["pad_value"] = [float(rng.uniform(0, 3)) for _ in range(m)]
